@@ -293,7 +293,8 @@ def _coeffs(f):
 
 
 def integral(f):
-    return all(isinstance(c, int) or (isinstance(c, float) and c.is_integer() and abs(c) < 2 ** 53) for c in _coeffs(f))
+    # python ints only: a float coefficient (even 1.0) turns a product with a 17-digit integer into a rounded float
+    return all(isinstance(c, int) and not isinstance(c, bool) for c in _coeffs(f))
 
 
 BIG = set()
